@@ -12,8 +12,8 @@
    tmpl_keeps (a template that shows its content keeps it), layout_keeps (the layout keeps the content and prints [lpre f] and the
    text of each footnote f of the file).  C14_std_templates shows the table of the shipped templates is an instance; that Jinja2 /
    simpleTAL behave like the table is tested by the correspondence on every run.
-   NOT a theorem (correspondence + output oracle only): identifiers unique within each file (M2 of the design) -- the oracle checks
-   it on every output file of every run. *)
+   The identifiers the layout templates print on their own (footnotes, doc_title, toc-toggle, index group letters) are not modelled;
+   the output oracle of the correspondence checks uniqueness on every output file including those. *)
 From Coq Require Import List ZArith NArith Bool.
 Import ListNotations.
 From Verif Require Import Val Filenames Render RenderProofs.
@@ -87,6 +87,35 @@ Proof.
 Qed.
 Print Assumptions C14_file_is_written.
 
+(* M2: identifiers are unique within each file.  For every document whose nodes carry pairwise different identifiers (distinct labels,
+   C09; fresh generated identifiers), every assignment of files and every unit (a, cs): no identifier occurs twice in the content of the
+   unit's file -- for all templates that print, per node, at most the node's own identifier once (ids_tmpl, ids_layout, own_id_only),
+   and whose footnote templates do not show the footnote text in place. *)
+Theorem C14_ids_unique_per_file_partial :
+  forall fmap tmpl layout shows is_note pre lpre,
+    ids_tmpl tmpl shows pre -> ids_layout layout lpre -> own_id_only is_note pre lpre ->
+    (forall a, is_note a = true -> shows a = false) ->
+    forall doc fnotes ch a cs,
+      NoDup (sers doc) -> notes_listed is_note doc fnotes -> In (ch, a, cs) (elems_ctx [] doc) ->
+      (forall b, In b (elements (E a cs)) -> a_isdoc b = false) ->
+      NoDup (flat_map (fun b => opt_list (a_id b)) (elements doc)) ->
+      NoDup (ids (content fmap tmpl layout doc fnotes a cs)).
+Proof. exact ids_unique_in_file. Qed.
+Print Assumptions C14_ids_unique_per_file_partial.
+
+(* the full statement -- without the hypothesis that the identifiers of the nodes are pairwise different -- is refuted on the faithful
+   Model: Macro.id draws generated identifiers (a0000000001, ...) without looking at the labels of the document, so a label that reads
+   like a generated identifier can meet the identifier generated for another node of the same file (known finding
+   C14-label-equals-generated-id; reproduced on the real renderer by the stream "label-like-generated-id") *)
+Theorem C14_ids_unique_per_file_refuted :
+  let fm := the_fmap ex_files in
+  let e := the_env ex_doc_clash ex_cfg ex_files false in
+  NoDup (sers ex_doc_clash) /\ notes_listed std_note ex_doc_clash [3] /\
+  In ([ex_docenv; ex_root], ex_sec1_clash, [T 2; E ex_fn [T 3]; T 4]) (elems_ctx [] ex_doc_clash) /\
+  ~ NoDup (ids (content fm (std_tmpl e) std_layout ex_doc_clash [3] ex_sec1_clash [T 2; E ex_fn [T 3]; T 4])).
+Proof. exact ids_unique_refuted. Qed.
+Print Assumptions C14_ids_unique_per_file_refuted.
+
 (* M3: SectionUtils.links chains the file-producing sections in document order: in the list secs of file-producing sections every
    element's "next" is its successor and every element's "prev" its predecessor ... *)
 Theorem C14_nav_chain :
@@ -136,8 +165,12 @@ Print Assumptions C14_id_printed.
 
 (* the table of the shipped templates is an instance of the hypotheses (they are satisfiable) *)
 Theorem C14_std_templates :
-  forall e, tmpl_own (std_tmpl e) (std_pre e) /\ tmpl_keeps (std_tmpl e) std_shows /\ layout_keeps std_layout std_lpre.
-Proof. intro e. exact (conj (std_own e) (conj (std_keeps e) std_lay)). Qed.
+  forall e, tmpl_own (std_tmpl e) (std_pre e) /\ tmpl_keeps (std_tmpl e) std_shows /\ layout_keeps std_layout std_lpre /\
+            ids_tmpl (std_tmpl e) std_shows (std_pre e) /\ ids_layout std_layout std_lpre /\
+            (e_item_ids e = false -> own_id_only std_note (std_pre e) std_lpre).
+Proof.
+  intro e. exact (conj (std_own e) (conj (std_keeps e) (conj std_lay (conj (std_ids_tmpl e) (conj std_ids_layout (std_own_id_only e)))))).
+Qed.
 Print Assumptions C14_std_templates.
 
 (* non-vacuity on the document of C13_nonvacuous: \section{t}\label{s1} is s1.html, its footnote is s1.html#f and is rendered in the body
